@@ -623,7 +623,7 @@ def check(ctx):
     units = [("tab", r, c, k) for r in range(0, 4) for c in range(0, 4) for k in ("int", "str", "bytes", "mixed", "float?", "date", "tuple")]
     for p in core.pmap(unit_tables, units):
         agg.merge(p)
-    agg.notes["bound"] = f"H: depth<={depth} from 4 seed worlds, pool<=4; E: tables 0..3 x 0..3 x 7 cell kinds (int, str incl. empty, bytes of 0/1/several bytes, mixed, nullable float, date, tuple)"
+    agg.notes["bound"] = f"H: depth<={depth} from 4 seed worlds, pool<=4; E: tables 0..3 x 0..3 x 7 cell kinds (int, str incl. empty, bytes of 0/1/several bytes, mixed, nullable float, date, tuple); appended rows of a wider kind on int / date tables"
     return agg
 
 
